@@ -15,6 +15,8 @@ func init() {
 	vpRegister("vpH_C02_merge3", vpH_C02_merge3)
 	vpRegister("vpH_C03_docnums", vpH_C03_docnums)
 	vpRegister("vpH_T_merge_concrete", vpH_T_merge_concrete)
+	vpRegister("vpH_C03_blocks", vpH_C03_blocks)
+	vpRegister("vpH_C02_leftover", vpH_C02_leftover)
 }
 
 // vpDrops chooses a deletion bitmap for a segment of n docs: nil, empty, or
@@ -64,6 +66,12 @@ func vpMergeCheck(g *vpGen, batches [][]*vpDoc, segs []*Segment, tag string) {
 }
 
 func vpMergeCheckMode(g *vpGen, batches [][]*vpDoc, segs []*Segment, tag string, outMode uint32) {
+	vpMergeCheckFields(g, batches, segs, tag, outMode, nil)
+}
+
+// vpMergeCheckFields: extraFields are field names that inputs carry without any
+// surviving document (leftovers of an earlier merge): they stay in the merged field list.
+func vpMergeCheckFields(g *vpGen, batches [][]*vpDoc, segs []*Segment, tag string, outMode uint32, extraFields []string) {
 	drops := make([]*roaring.Bitmap, len(segs))
 	dropped := make([][]bool, len(segs))
 	for i := range segs {
@@ -77,7 +85,7 @@ func vpMergeCheckMode(g *vpGen, batches [][]*vpDoc, segs []*Segment, tag string,
 	}
 	b, _ := vpMergeBytes(segs, drops, outMode)
 	m := vpLoad(b)
-	exp := vpBuildExpect(surv, vpFieldNames(batches...))
+	exp := vpBuildExpect(surv, append(vpFieldNames(batches...), extraFields...))
 	obs := vpObserve(m, []string{"zz"}, []string{"q"})
 	vpMatchesModel("merged", obs, exp, vpMatchOpts{merged: true, skipStats: vpSkipMergedStats})
 }
@@ -288,3 +296,152 @@ func vpH_T_merge_concrete() {
 // merged statistics are the subject of C16; its defect is repaired (see known_findings.json), so the
 // other merge harnesses compare them too
 var vpSkipMergedStats = false
+
+// vpNumberedDocs: n documents with _id "k<number>" (stored) and one stored value
+// in field "s" for every third document; identical field lists in every segment.
+func vpNumberedDocs(prefix string, n int) []*vpDoc {
+	var ds []*vpDoc
+	for d := 0; d < n; d++ {
+		id := []byte(prefix + string([]byte{byte('0' + d/100), byte('0' + d/10%10), byte('0' + d%10)}))
+		doc := &vpDoc{fields: []*vpField{{name: "_id", store: true, value: id, length: 1, terms: []*vpTerm{{term: id, freq: 1}}}}}
+		v := []byte{byte('A' + d%26)}
+		doc.fields = append(doc.fields, &vpField{name: "s", store: true, value: v, length: 1, terms: []*vpTerm{{term: []byte("t"), freq: 1}}})
+		ds = append(ds, doc)
+	}
+	return ds
+}
+
+// C03 at the 128-document stored-block boundary: a segment of 127 / 128 / 129 /
+// 256 documents with one deleted document (first, last of the first block,
+// last) or none, merged with a small segment of the same field list, before or
+// after it: mapping, Count, and the content found at selected new numbers.
+func vpH_C03_blocks() {
+	n := []int{128, 256, 127, 129}[vpChoice("size", 4)]
+	big := vpNumberedDocs("a", n)
+	small := vpNumberedDocs("b", 2)
+	sb, ss := vpBuild(big, 1025), vpBuild(small, 1025)
+	var dr *roaring.Bitmap
+	del := -1
+	switch vpChoice("deleted", 4) {
+	case 1:
+		del = 0
+	case 2:
+		del = 127
+		if del >= n {
+			del = n - 1
+		}
+	case 3:
+		del = n - 1
+	}
+	if del >= 0 {
+		dr = roaring.New()
+		dr.Add(uint32(del))
+	}
+	segs := []segment.Segment{sb, ss}
+	drops := []*roaring.Bitmap{dr, nil}
+	batches := [][]*vpDoc{big, small}
+	bigIdx := 0
+	if vpChoice("big-last", 2) == 1 {
+		segs = []segment.Segment{ss, sb}
+		drops = []*roaring.Bitmap{nil, dr}
+		batches = [][]*vpDoc{small, big}
+		bigIdx = 1
+	}
+	mg := Merge(segs, drops, 0)
+	var buf bytes.Buffer
+	_, err := mg.WriteTo(&buf, nil)
+	vpMust(err, "Merger.WriteTo")
+	dn := mg.DocumentNumbers()
+	vpAssert(len(dn) == 2 && len(dn[0]) == len(batches[0]) && len(dn[1]) == len(batches[1]), "DocumentNumbers has one entry per input document")
+	if !(len(dn) == 2 && len(dn[0]) == len(batches[0]) && len(dn[1]) == len(batches[1])) {
+		return
+	}
+	next := uint64(0)
+	for i := range batches {
+		for j := range batches[i] {
+			if i == bigIdx && j == del {
+				vpAssert(dn[i][j] == math.MaxInt64, "dropped document maps to the sentinel")
+			} else {
+				vpAssert(dn[i][j] == next, "survivors are numbered consecutively")
+				next++
+			}
+		}
+	}
+	m := vpLoad(buf.Bytes())
+	vpAssert(m.Count() == next, "merged Count equals the number of survivors")
+	// content at the reported numbers: around the block boundaries and at both ends
+	probe := func(i, j int) {
+		if j < 0 || j >= len(batches[i]) || (i == bigIdx && j == del) {
+			return
+		}
+		var id, val []byte
+		err := m.VisitStoredFields(dn[i][j], func(field string, value []byte) bool {
+			if field == "_id" {
+				id = append([]byte(nil), value...)
+			} else {
+				val = append([]byte(nil), value...)
+			}
+			return true
+		})
+		vpMust(err, "VisitStoredFields")
+		vpAssert(bytes.Equal(id, batches[i][j].fields[0].value) && bytes.Equal(val, batches[i][j].fields[1].value), "old document found at its new number")
+		dict, err := m.Dictionary("_id")
+		vpMust(err, "Dictionary")
+		pl, err := dict.PostingsList(batches[i][j].fields[0].value, nil, nil)
+		vpMust(err, "PostingsList")
+		it, err := pl.Iterator(false, false, false, nil)
+		vpMust(err, "Iterator")
+		p, err := it.Next()
+		vpMust(err, "Next")
+		vpAssert(p != nil && p.Number() == dn[i][j], "old document's _id is posted at its new number")
+	}
+	for _, j := range []int{0, 1, 126, 127, 128, 129, 255, n - 2, n - 1} {
+		probe(bigIdx, j)
+	}
+	probe(1-bigIdx, 0)
+	probe(1-bigIdx, 1)
+	vpReach("C03 blocks end")
+}
+
+// C02 with inputs that carry leftovers of documents deleted by an earlier
+// merge: a second-generation input whose field table still lists a field
+// (sorting between the others) that none of its documents has, or a
+// zero-document second-generation input carrying such a field, first or last.
+func vpH_C02_leftover() {
+	g := vpNewGen(0)
+	a := g.batch("A", 1, 2, []int{2, 5})
+	b := g.batch("B", 1, 1, []int{5})
+	vpSetLengths(a)
+	vpSetLengths(b)
+	sa, sb := vpBuild(a, 1025), vpBuild(b, 1025)
+	extra := []*vpDoc{{fields: []*vpField{
+		{name: "_id", store: true, value: []byte("e0"), length: 1, terms: []*vpTerm{{term: []byte("e0"), freq: 1}}},
+		{name: "aa", store: true, dv: true, value: []byte("v"), length: 1, terms: []*vpTerm{{term: []byte("k"), freq: 1}}}}}}
+	se := vpBuild(extra, 1025)
+	all := roaring.New()
+	all.Add(0)
+	batches := [][]*vpDoc{a, b}
+	segs := []*Segment{sa, sb}
+	switch vpChoice("leftover", 4) {
+	case 0:
+		mb, _ := vpMergeBytes([]*Segment{sa, se}, []*roaring.Bitmap{nil, all}, 1025)
+		segs[0] = vpLoad(mb)
+		vpReach("C02 leftover field in the first input")
+	case 1:
+		mb, _ := vpMergeBytes([]*Segment{se, sb}, []*roaring.Bitmap{all, nil}, 1025)
+		segs[1] = vpLoad(mb)
+		vpReach("C02 leftover field in the second input")
+	case 2:
+		mb, _ := vpMergeBytes([]*Segment{se}, []*roaring.Bitmap{all}, 1025)
+		batches = [][]*vpDoc{nil, a, b}
+		segs = []*Segment{vpLoad(mb), sa, sb}
+		vpReach("C02 empty second-generation input first")
+	default:
+		mb, _ := vpMergeBytes([]*Segment{se}, []*roaring.Bitmap{all}, 1025)
+		batches = [][]*vpDoc{a, b, nil}
+		segs = []*Segment{sa, sb, vpLoad(mb)}
+		vpReach("C02 empty second-generation input last")
+	}
+	vpMergeCheckFields(g, batches, segs, "m", 1025, []string{"aa"})
+	vpReach("C02 leftover end")
+}
